@@ -208,7 +208,9 @@ func (c *conn) send(ctx context.Context, msg *kmip.RequestMessage) error {
 		return err
 	}
 	tx := c.tx.Load().(chan txMsg)
-	errCh := make(chan error)
+	// Buffered: the write loop reports a failed write even when the sender has already left
+	// through a canceled context, and must not block forever doing so.
+	errCh := make(chan error, 1)
 	select {
 	case tx <- txMsg{msg: msg, err: errCh}:
 		select {
